@@ -56,7 +56,7 @@ def content(d):
 
 class C09(vlib.Check):
     id = "C09"
-    props_modules = ["E3fpVerif.Props.C09"]
+    props_modules = ["E3fpVerif.Props.C09", "E3fpVerif.Props.C09Db"]
     gen_items = ["fprint_fold"]
     rule = ("pairs and triples built from a seeded fingerprint and its near variants (equal, subset, superset, level, bits, "
             "one count, other kind), compared with ==/!= in both directions; copies (from_fingerprint, pickle, conversion "
